@@ -655,3 +655,6 @@ func DistinctLeaves(d *DNode) *DNode {
 	walk(d)
 	return d
 }
+
+// Perturb applies one random mutation to a copy of d.
+func (g *G) Perturb(d *DNode) *DNode { return g.perturb(d) }
